@@ -128,6 +128,9 @@ def random_string(rng, maxlen):
         if 0xD800 <= cp <= 0xDFFF:
             cp = 0xFFFD
         out.append(chr(cp))
+        if rng.chance(1, 12):
+            # text that looks like an escape or a form-encoded fragment: must come back literally
+            out.append(rng.choice(["%41", "%2F", "%25", "%2541", "%zz", "%", "+", "%20", "&amp;", "%26x%3D1", "%00", "%C3%A9", "%c3"]))
     return "".join(out)
 
 
@@ -161,7 +164,7 @@ def run(tier, seed):
     rng = vc.Rng(seed)
     od = vc.outdir(PID)
     workers = 4 if tier == "quick" else 16
-    cfgs = ["MCUriCodec_bytes.cfg", "MCUriCodec_pairs.cfg", "MCUriCodec_shapes.cfg", "MCUriCodec_combo.cfg"]
+    cfgs = ["MCUriCodec_bytes.cfg", "MCUriCodec_pairs.cfg", "MCUriCodec_pct.cfg", "MCUriCodec_shapes.cfg", "MCUriCodec_combo.cfg"]
     if tier == "thorough":
         cfgs.append("MCUriCodec_shapes3.cfg")
     cases, states, transitions, cov, runs = [], 0, 0, {}, []
